@@ -68,7 +68,7 @@ def gen_ctor(rng, typ="stopping"):
 
 
 def gen_cases(rng, tier):
-    n = 60 if tier == "quick" else 1500
+    n = 60 if tier == "quick" else 800
     for _ in range(n):
         yield {
             "ctor": gen_ctor(rng),
